@@ -206,10 +206,10 @@ def search(tier, seed):
 
 _name = lambda i: "r%d" % i
 _back = lambda s: int(s[1:])
-_INS = re.compile(r"^INSERT INTO (?:\S+|\"[^\"]+\"(?:\.\"[^\"]+\")?) \(version_num\) VALUES \('(r\d+)'\)(?: RETURNING version_num)?$")
-_DEL = re.compile(r"^DELETE FROM (?:\S+|\"[^\"]+\"(?:\.\"[^\"]+\")?) WHERE (?:\S+|\"[^\"]+\"(?:\.\"[^\"]+\")?)\.version_num = '(r\d+)'$")
-_UPD = re.compile(r"^UPDATE (?:\S+|\"[^\"]+\"(?:\.\"[^\"]+\")?) SET version_num='(r\d+)' WHERE "
-                  r"(?:\S+|\"[^\"]+\"(?:\.\"[^\"]+\")?)\.version_num = '(r\d+)'$")
+_NM = r'(?:\w+|"[^"]+")(?:\.(?:\w+|"[^"]+"))*'          # [schema.]table[.column], each part bare or double-quoted
+_INS = re.compile(r"^INSERT INTO " + _NM + r" \(version_num\) VALUES \('(r\d+)'\)(?: RETURNING version_num)?$")
+_DEL = re.compile(r"^DELETE FROM " + _NM + r" WHERE " + _NM + r" = '(r\d+)'$")
+_UPD = re.compile(r"^UPDATE " + _NM + r" SET version_num='(r\d+)' WHERE " + _NM + r" = '(r\d+)'$")
 
 
 def parse_stmt(statement, rowcount):
@@ -296,7 +296,7 @@ def run_case(h):
 
     s, m, enc = build(h["g"])
     eng, conn, opts, qual = open_db(h.get("cfg"))
-    cmds_enc, outs = [], []
+    cmds_enc, outs, harness_fail = [], [], []
     nsteps = 0
     errs = set()
     try:
@@ -304,7 +304,11 @@ def run_case(h):
 
         @event.listens_for(conn, "after_cursor_execute")
         def ace(c, cursor, statement, parameters, context, executemany):
-            p = parse_stmt(statement, cursor.rowcount)
+            try:
+                p = parse_stmt(statement, cursor.rowcount)
+            except RuntimeError as e:          # a harness problem: must not be mistaken for an alembic exception
+                harness_fail.append(str(e))
+                raise
             if p:
                 log.append(p)
 
@@ -364,6 +368,9 @@ def run_case(h):
     finally:
         conn.close()
         eng.dispose()
+
+    if harness_fail:
+        raise RuntimeError(harness_fail[0])
 
     def stmt(p):
         if p[0] == "ins":
